@@ -216,6 +216,18 @@ let handle_smtp (kind : string) (ins : string list) (outs : string list) : bool 
   | [naming; maxr; maxb; da; acc; rej; ds; sto; dis; rejo; _store; streams; _script; ml; rl; msl] ->
       go naming maxr maxb da acc rej ds sto dis rejo (String.split_on_char '+' streams)
         (parse_smtp_rules ml, parse_smtp_rules rl, parse_msg_rules msl)
+  | [naming; maxr; maxb; da; acc; rej; ds; sto; dis; rejo; _store; streams; _script; ml; rl; msl; ml2; rl2] ->
+      (* two listeners on each SMTP broker, the Lua host first: the answer is EventBroker.Emit's
+         (model: Hooks.emit) - the first listener that answers; NoAns = nil result *)
+      let combine (first : (str * hook_ans) list) (second : (str * hook_ans) list) : (str * hook_ans) list =
+        let keys = List.sort_uniq compare (List.map fst first @ List.map fst second) in
+        let listener (t : (str * hook_ans) list) (a : str) : hook_ans option =
+          match List.assoc_opt a t with Some NoAns | None -> None | Some h -> Some h in
+        List.map (fun a ->
+          (a, match broker_emit [listener first; listener second] a with Some h -> h | None -> NoAns)) keys in
+      go naming maxr maxb da acc rej ds sto dis rejo (String.split_on_char '+' streams)
+        (combine (parse_smtp_rules ml) (parse_smtp_rules ml2), combine (parse_smtp_rules rl) (parse_smtp_rules rl2),
+         parse_msg_rules msl)
   | _ -> false
 
 let () =
